@@ -123,7 +123,7 @@ func c06Replay(min, max int32, path []c06Call) (p wasp.VerifMIDPool, out map[int
 }
 
 func runC06(c *fw.Ctx) {
-	c.Rule = "(1) every allocator state reachable for ranges [min,max] of width 1-8 (quick) or 1-11 (thorough), min 0 and 1 is explored breadth-first on the real allocator: from every reached state (free-interval snapshot + outstanding set) every call Get and Put(x), x in [min-1,max+1], is executed; each call is checked against a shadow set (range, freshness, exhaustion iff all outstanding, no panic, free list = complement). (2) seeded histories on the production range 0..65535 and on mid-size ranges driven to exhaustion, with releases of free, unknown and out-of-range identifiers. distinct = (range, state, call) for (1), history hash for (2); non-trivial = a call made with >=1 identifier outstanding"
+	c.Rule = "(1) every allocator state reachable for ranges [min,max] of width 1-8 (quick) or 1-11 (thorough), min 0 and 1 is explored breadth-first on the real allocator: from every reached state (free-interval snapshot + outstanding set) every call Get and Put(x), x in [min-1,max+1], is executed; each call is checked against a shadow set (range, freshness, exhaustion iff all outstanding, no panic, free list = complement). (2) seeded histories on the production range 0..65535 and on mid-size ranges driven to exhaustion, with releases of free, unknown and out-of-range identifiers. (3) writer level: 8-identifier pool with a slow acknowledger (exhaustion, session end with deliveries unacknowledged or between PUBREC and PUBCOMP, write failure); fan-out to 2-4 QoS 1 sessions with node-wide uniqueness of unacknowledged identifiers; acknowledgements racing sweeps; deliveries left to the broker's own ticker on nodes started a quarter of a second apart. distinct = (range, state, call) for (1), history hash for (2); non-trivial = a call made with >=1 identifier outstanding"
 	c.Assume("exhaustion is reported as a value outside [min,max] (the code uses -1); ranges have min >= 0")
 	c.Assume("hook H1 exposes the unexported allocator and its free intervals, read as half-open (from,to] ranges as in wasp/idpool.go")
 
